@@ -363,6 +363,19 @@ func C06(tier string) {
 		jpegWith("jpeg 255 chunks reversed", rev, nil)
 		jpegWith("jpeg 255 chunks rotated, half after SOF", rot[:128], rot[128:])
 	}
+	// a geometric ladder of sizes that are not round numbers, in all three containers
+	for n := 317; n < 9<<20; n = n*137/100 + 3 {
+		p := testProfile(n, "lcg")
+		var sizes []int
+		for rem := n; rem > 0; {
+			s := minI(rem, 65519)
+			sizes = append(sizes, s)
+			rem -= s
+		}
+		if len(sizes) <= 255 {
+			jpegWith(fmt.Sprintf("jpeg ladder %d bytes in %d chunks", n, len(sizes)), split(p, sizes), nil)
+		}
+	}
 	big := []int{1 << 20, 4 << 20}
 	if tier == "thorough" {
 		big = append(big, 16<<20-300)
@@ -422,6 +435,9 @@ func C06(tier string) {
 		}
 	}
 	psizes = append(psizes, 65535, 65536, 65537, 1<<20, 4<<20)
+	for n := 317; n < 9<<20; n = n*137/100 + 3 {
+		psizes = append(psizes, n)
+	}
 	for i, n := range psizes {
 		for ci, content := range []string{"zeros", "ramp", "lcg"} {
 			for li, level := range []int{0, 1, 6, 9} {
@@ -450,6 +466,9 @@ func C06(tier string) {
 		wsizes = append(wsizes, n)
 	}
 	wsizes = append(wsizes, 4085, 4086, 4087, 4096, 4097, 8191, 8192, 65535, 65536, 65537, 1<<20, 1<<20+1, 4<<20)
+	for n := 317; n < 9<<20; n = n*137/100 + 3 {
+		wsizes = append(wsizes, n)
+	}
 	for _, n := range wsizes {
 		data, info := gen.WebPVP8X(0x20, 32, 20, testProfile(n, "lcg"), inner)
 		add(Case{fmt.Sprintf("webp VP8X+ICCP %d bytes", n), data, info})
